@@ -1,6 +1,7 @@
 package main
 
 import (
+	"strings"
 	"fmt"
 	"go/token"
 	"go/types"
@@ -131,54 +132,61 @@ func propC02(c *Ctx, r *Report) {
 			}
 		}
 	}
-	tests := nilTestsOf(c, ev)
-	var persisted, fresh *ssa.Store
-	allInstrs(np, func(ins ssa.Instruction) {
-		st, ok := ins.(*ssa.Store)
-		if !ok || !fieldAddrIs(st.Addr, "Pegnetd", "Sync") {
-			return
+	_ = ev
+	// decided on the CFG specialised to the three outcomes of SelectSynced - whatever shape the branches have
+	noRows := c.Prog.ImportedPackage("database/sql").Members["ErrNoRows"].(*ssa.Global)
+	type outcome struct {
+		name                   string
+		res                    AVal
+		wantPersisted, wantNew bool
+		wantErr                bool
+	}
+	for _, oc := range []outcome{
+		{"a sync record exists", AVal{K: ATuple, Tup: []AVal{nonNil, nilVal}}, true, false, false},
+		{"empty database (sql.ErrNoRows)", AVal{K: ATuple, Tup: []AVal{nilVal, {K: ASentinel, G: noRows}}}, false, true, false},
+		{"any other database error", AVal{K: ATuple, Tup: []AVal{nilVal, fresh}}, false, false, true},
+	} {
+		sc := &Scenario{Calls: map[string]AVal{"SelectSynced": oc.res}, MaxDepth: 1, AllErrorsNil: true,
+			NoInline: map[string]bool{"CheckHardForks": true, "New": true, "Init": true, "InitLX": true, "FactomClientFromConfig": true, "InitChainsFromConfig": true}}
+		s := newSCCP(c, sc)
+		st := s.run(np, nil, 0)
+		r.Scen++
+		if st == nil {
+			r.undecided("C02-R6/resume", "NewPegnetd: "+oc.name, c.pos(np.Pos()), "not analysable")
+			continue
 		}
-		if st.Val == v0 {
-			persisted = st
-		} else {
-			fresh = st
-		}
-	})
-	okP := persisted != nil && len(tests) == 1 && blockOrDom(tests[0].N, persisted.Block())
-	r.check(okP, "C02-R6/resume", "Sync := SelectSynced result on the nil-error path", c.ipos(sel), "store dominated by the nil-error edge", "the persisted sync height is not what the node resumes from")
-	if fresh != nil && len(tests) == 1 {
-		// must be under err == sql.ErrNoRows
-		ef := &errflow{c: c}
-		C := ef.carriers(ev)
-		under := false
-		for _, b := range np.Blocks {
-			if eq := sentinelEqSucc(b, C); eq != nil && blockOrDom(eq, fresh.Block()) {
-				if cond, _, _ := condEdge(b); cond != nil {
-					bo := cond.(*ssa.BinOp)
-					for _, o := range []ssa.Value{bo.X, bo.Y} {
-						if g, ok := isGlobalErrLoad(o); ok && g.Pkg.Pkg.Path() == "database/sql" && g.Name() == "ErrNoRows" {
-							under = true
+		gotPersisted, gotNew, actOK := false, false, false
+		for _, f := range c.family(np) {
+			fs := st
+			if f != np {
+				continue // closures/helpers: evaluated through their call sites below when present
+			}
+			allInstrs(f, func(ins ssa.Instruction) {
+				stt, ok := ins.(*ssa.Store)
+				if !ok || !fs.execB[stt.Block()] {
+					return
+				}
+				if fieldAddrIs(stt.Addr, "Pegnetd", "Sync") {
+					if stt.Val == v0 {
+						gotPersisted = true
+					} else {
+						gotNew = true
+					}
+				}
+				if fieldAddrIs(stt.Addr, "BlockSync", "Synced") {
+					if u, ok := stt.Val.(*ssa.UnOp); ok && u.Op == token.MUL {
+						if g, ok := u.X.(*ssa.Global); ok && g.Name() == "PegnetActivation" {
+							actOK = true
 						}
 					}
 				}
-			}
+			})
 		}
-		r.check(under, "C02-R6/resume", "fresh start only under sql.ErrNoRows", c.ipos(fresh), "the activation height is used only for an empty database", "a database error other than 'no rows' restarts the node from the activation height over an existing ledger")
-		// the fresh object's height is config.PegnetActivation
-		okAct := false
-		allInstrs(np, func(ins ssa.Instruction) {
-			st, ok := ins.(*ssa.Store)
-			if !ok || !fieldAddrIs(st.Addr, "BlockSync", "Synced") {
-				return
-			}
-			if u, ok := st.Val.(*ssa.UnOp); ok && u.Op == token.MUL {
-				if g, ok := u.X.(*ssa.Global); ok && g.Name() == "PegnetActivation" {
-					okAct = true
-				}
-			}
-		})
-		r.check(okAct, "C02-R6/resume", "fresh start height is PegnetActivation", c.ipos(fresh), "", "fresh database does not start at config.PegnetActivation")
-	} else {
-		r.viol("C02-R6/resume", "fresh start branch", c.ipos(sel), "no separate store of a fresh BlockSync found")
+		errs := strings.Join(errorReturns(st), "|")
+		returnsErr := strings.Contains(errs, "err:") && !strings.Contains(errs, "nil")
+		okk := gotPersisted == oc.wantPersisted && gotNew == oc.wantNew && returnsErr == oc.wantErr && (!oc.wantNew || actOK)
+		r.check(okk, "C02-R6/resume", "NewPegnetd: "+oc.name, c.ipos(sel),
+			fmt.Sprintf("resumes from the record=%v, starts fresh at PegnetActivation=%v, fails=%v", oc.wantPersisted, oc.wantNew, oc.wantErr),
+			fmt.Sprintf("resumes from the record=%v (want %v), starts fresh=%v at PegnetActivation=%v (want %v), returns %s (want error=%v): a node that resumes from the wrong height re-applies or skips blocks of an existing ledger", gotPersisted, oc.wantPersisted, gotNew, actOK, oc.wantNew, errs, oc.wantErr))
 	}
 }
